@@ -1020,6 +1020,12 @@ def _finalize_fairy(
             if connection_record:
                 connection_record.invalidate(e=e)
             if not isinstance(e, Exception):
+                # the checkin below is not reached
+                if (
+                    connection_record
+                    and connection_record.fairy_ref is not None
+                ):
+                    connection_record.checkin()
                 raise
         finally:
             if detach and is_gc_cleanup and dont_restore_gced:
